@@ -14,7 +14,7 @@ import (
 // any error through Formattable), locally and decoded.
 func H_C09_VS(v *sym.V) {
 	g := newG(v, sym.REG)
-	b := g.BuildUpTo("e", v.Param("D", 2), gen.AllLeaves, gen.AllWrappers)
+	b := build(v, g, "e")
 	e := b.Err
 	if v.Choice("decoded", 2) == 1 {
 		e = wire.Hop(e)
@@ -119,6 +119,12 @@ func ownDetail(b *gen.B) (string, bool) {
 	case gen.WDetail:
 		return b.Details[len(b.Details)-1], true
 	case gen.WIssueLink:
+		if b.Link != nil && b.Link.IssueURL == "" {
+			return "detail: " + b.Link.Detail, true
+		}
+		if b.Link != nil {
+			return "issue: " + b.Link.IssueURL, true
+		}
 		return "issue: ", true
 	case gen.WTelemetry:
 		return "keys: [", true
@@ -147,7 +153,7 @@ func ownDetail(b *gen.B) (string, bool) {
 // order, and each wrapper's own detail appears.
 func H_C09_PlusV(v *sym.V) {
 	g := newG(v, sym.REGNN)
-	b := g.BuildUpTo("e", v.Param("D", 2), gen.AllLeaves, gen.AllWrappers)
+	b := build(v, g, "e")
 	e := b.Err
 	multiline := sym.Contains(e.Error(), "\n")
 	decoded := v.Choice("decoded", 2) == 1
